@@ -70,14 +70,48 @@ def tree_key():
     return _tree_key
 
 
-def cache_dir():
+_asm_key = None
+
+
+def asm_key():
+    """key of everything the assembled objects depend on (NASM sources and includes, the build description, the object-level
+    extractors), independent of where the tree lies: a C-only change re-uses the object-level facts"""
+    global _asm_key
+    if _asm_key is None:
+        h = hashlib.sha256()
+        for p in _input_files():
+            rel = os.path.relpath(p, REPO)
+            if not (rel.endswith(('.asm', '.inc', '.cmake', '.txt', '.in')) or rel.startswith('cmake')):
+                continue
+            try:
+                with open(p, 'rb') as f:
+                    data = f.read()
+            except OSError:
+                continue
+            h.update(rel.encode() + b'\0' + str(len(data)).encode() + b'\0')
+            h.update(data)
+        for f in sorted(os.listdir(os.path.join(VERIF, 'imbv'))):
+            if f == 'build.py' or f.startswith('asm'):
+                h.update(open(os.path.join(VERIF, 'imbv', f), 'rb').read())
+        _asm_key = 'asm-' + h.hexdigest()[:28]
+    return _asm_key
+
+
+def cache_dir(name=None):
+    if name == 'asm_stage':
+        d = os.path.join(CACHE_ROOT, asm_key())
+        os.makedirs(d, exist_ok=True)
+        return d
     d = os.path.join(CACHE_ROOT, tree_key())
     if not os.path.isdir(d):
         os.makedirs(d, exist_ok=True)
         # keep the cache small: drop all but the 3 most recent other keys
         try:
             others = sorted((os.path.getmtime(os.path.join(CACHE_ROOT, x)), x) for x in os.listdir(CACHE_ROOT)
-                            if x != tree_key())
+                            if x != tree_key() and not x.startswith('asm-'))
+            asms = sorted((os.path.getmtime(os.path.join(CACHE_ROOT, x)), x) for x in os.listdir(CACHE_ROOT) if x.startswith('asm-'))
+            for _, x in asms[:-4]:
+                shutil.rmtree(os.path.join(CACHE_ROOT, x), ignore_errors=True)
             for _, x in others[:-3]:
                 shutil.rmtree(os.path.join(CACHE_ROOT, x), ignore_errors=True)
         except OSError:
@@ -102,7 +136,7 @@ _MEM = {}
 
 
 def _cached(name, producer):
-    path = os.path.join(cache_dir(), name + '.pkl')
+    path = os.path.join(cache_dir(name), name + '.pkl')
     if use_cache() and os.path.exists(path):
         try:
             with open(path, 'rb') as f:
